@@ -25,6 +25,7 @@ import (
 	"sort"
 	"strings"
 	"sync"
+	"time"
 
 	"seehuhn.de/go/postscript"
 	"seehuhn.de/go/postscript/afm"
@@ -157,7 +158,24 @@ func buildCalls(seed uint64, env *psEnv) []callSpec {
 	add("Font.queries", func() string {
 		return sha([]byte(fmt.Sprint(font.GlyphList(), font.FontBBoxPDF(), font.NumGlyphs(), metrics.GlyphList(), metrics.FontBBoxPDF())))
 	})
-	nameArgs := []string{"A", "space", "a100", "Tcommaaccent", "uni20AC0308", "u1F600", "f_f_i", "dalethatafpatah", "a9.alt", "nonexistent", "Aacute_B.sc", ".notdef"}
+	// creation dates in zones the writer has to re-spell (no abbreviation, odd
+	// abbreviations, offsets of odd minutes): a table of such zones kept by the
+	// writer would be filled on first use - here by several goroutines at once
+	for zi, zone := range []struct {
+		name string
+		off  int
+	}{{"", 5400}, {"", -12600}, {"x", 3600}, {"+0130", 5400}, {"GMT", 7200}, {"", 20700}, {"Local", -1800}, {"", 0}, {"", 45 * 60}, {"ab", -7 * 3600}} {
+		zf := *font
+		zf.CreationDate = time.Date(2021, 3, 4, 5, 6, 7, 0, time.FixedZone(zone.name, zone.off))
+		zfp := &zf
+		zi := zi
+		add(fmt.Sprintf("Font.Write/odd-zone#%d", zi), func() string {
+			var buf bytes.Buffer
+			err := zfp.Write(&buf, &type1.WriterOptions{Format: type1.FormatPFA})
+			return sha(buf.Bytes()) + fmt.Sprintf("/%v", err)
+		})
+	}
+	nameArgs := []string{"A", "space", "a100", "Tcommaaccent", "uni20AC0308", "u1F600", "f_f_i", "dalethatafpatah", "a9.alt", "nonexistent", "Aacute_B.sc", ".notdef", "a1_a2", "a3_f_a4", "a100_a100", "A_a7_B"}
 	// the caller owns what ToUnicode returns: every result is written into
 	// after it has been looked at (a result that is the table's own memory then
 	// shows in later results, and as a data race in the concurrent workload)
